@@ -1442,8 +1442,81 @@ static void two_links_per_element()
     }
 }
 
+// ================================================================ G. heads declared with the DLIST_HEAD / SLIST_HEAD macros at block scope
+// Every activation of a function owns the list it declares: nested activations (recursion, a callback that runs the
+// same function) and repeated calls while nodes of an earlier call are still linked elsewhere must each start from
+// an empty list of their own.
+static int g_decl_bad;
+static void declared_heads_activation(int depth, int maxdepth, int fanout, vector<int> &order)
+{
+    DLIST_HEAD(dh);
+    SLIST_HEAD(sh);
+    if (!dlist_empty(&dh) || dlist_size(&dh) != 0 || !slist_empty(&sh))
+        g_decl_bad |= 1; // the freshly declared list is not empty
+    CItem items[3];
+    SItem sitems[3];
+    for (int k = 0; k < fanout; k++)
+    {
+        items[k].key = depth * 10 + k;
+        dlist_init(&items[k].lnk);
+        dlist_add_prev(&items[k].lnk, &dh);
+        sitems[k].id = depth * 10 + k;
+        slist_add(&sitems[k].lnk, &sh);
+    }
+    if (depth < maxdepth)
+        declared_heads_activation(depth + 1, maxdepth, fanout, order); // nested activation while ours is populated
+    // after the nested call returned our list must hold exactly our own nodes, in order
+    int n = 0;
+    CItem *e;
+    dlist_for_each_entry(e, &dh, lnk)
+    {
+        if (e != &items[n] || e->key != depth * 10 + n)
+            g_decl_bad |= 2;
+        n++;
+        if (n > 8)
+            break;
+    }
+    if (n != fanout || dlist_size(&dh) != fanout)
+        g_decl_bad |= 4;
+    int m = 0;
+    SItem *se;
+    slist_for_each_entry(se, &sh, lnk)
+    {
+        if (se != &sitems[fanout - 1 - m])
+            g_decl_bad |= 8;
+        m++;
+        if (m > 8)
+            break;
+    }
+    if (m != fanout || slist_size(&sh) != fanout)
+        g_decl_bad |= 16;
+    order.push_back(depth);
+    for (int k = 0; k < fanout; k++)
+        dlist_del_init(&items[k].lnk);
+}
+static void declared_heads()
+{
+    int c = mc::choose(4 * 3 * 2);
+    int maxdepth = c % 4, fanout = 1 + (c / 4) % 3, calls = 1 + c / 12;
+    mc::describe("DLIST_HEAD/SLIST_HEAD at block scope: nesting depth %d, %d nodes per activation, %d consecutive calls", maxdepth, fanout, calls);
+    mc::crash_context("C01.declared_heads.crash");
+    if (maxdepth || calls > 1)
+        mc::nontrivial();
+    g_decl_bad = 0;
+    vector<int> order;
+    for (int k = 0; k < calls; k++)
+        declared_heads_activation(0, maxdepth, fanout, order);
+    if (g_decl_bad)
+        mc::violation("C01.declared_heads.not_private_to_the_activation",
+                      "a list declared with DLIST_HEAD/SLIST_HEAD inside a function was %s%s%s(flags %#x)", g_decl_bad & 1 ? "not empty when declared; " : "",
+                      g_decl_bad & 6 ? "dlist contents differ from the nodes this activation added; " : "",
+                      g_decl_bad & 24 ? "slist contents differ from the nodes this activation added; " : "", g_decl_bad);
+    mc::outcome(mc::fmt("%zu activations", order.size()));
+}
+
 MC_INIT
 {
+    mc::add_check("declared_heads", declared_heads);
     mc::add_check("two_links_per_element", two_links_per_element);
     mc::add_check("long_lists", long_lists);
     mc::add_bfs("c_dlist", [] { return std::unique_ptr<mc::Model>(new CDlist); });
